@@ -40,7 +40,7 @@ RULE = (
 ASSUMPTIONS = ["the private name icontract._checkers._IN_PROGRESS is the only hook; if it is missing the state monitor is skipped and the "
                "behavioural monitor decides", "asyncio cancellation is modelled by throwing CancelledError into the coroutine at the await"]
 
-KINDS = ["ValueError", "BodyError", "CustomBase", "KeyboardInterrupt", "SystemExit", "RecursionError", "GeneratorExit"]
+KINDS = ["ValueError", "BodyError", "CustomBase", "KeyboardInterrupt", "SystemExit", "RecursionError", "GeneratorExit", "StopIteration", "AssertionError"]
 
 
 class Closed(Exception):
